@@ -159,6 +159,13 @@ func flushDeletes(bs store.BadgerStore, ops *compactionInstruction, finalFlush b
 		return false, nil
 	}
 	verifhook.Point("compact.beforeFlush")
+	// re-pointing a latest-version key must not interleave with a writer of the dataset
+	if locker, ok := bs.(interface {
+		LockDataset(datasetID types.InternalDatasetID) func()
+	}); ok && len(ops.RewriteKeys) > 0 {
+		unlock := locker.LockDataset(types.InternalDatasetID(binary.BigEndian.Uint32(ops.RewriteKeys[0][2:6])))
+		defer unlock()
+	}
 	err := bs.GetDB().Update(func(txn *badger.Txn) error {
 		bufferedKeys, err := strategy.flush(txn)
 		if err != nil {
@@ -180,7 +187,22 @@ func flushDeletes(bs store.BadgerStore, ops *compactionInstruction, finalFlush b
 			}
 		}
 		// fmt.Println("deleted", len(all), "keys")
+		deleted := make(map[string]bool, len(all))
+		for _, key := range all {
+			deleted[string(key)] = true
+		}
 		for i, key := range ops.RewriteKeys {
+			// only re-point the latest-version key if it still points to a version that is deleted here.
+			// a writer may have stored a newer version since the compaction snapshot was taken
+			if item, getErr := txn.Get(key); getErr == nil {
+				current, copyErr := item.ValueCopy(nil)
+				if copyErr != nil {
+					return copyErr
+				}
+				if !deleted[string(current)] {
+					continue
+				}
+			}
 			err2 := txn.Set(key, ops.RewriteValues[i])
 			if err2 != nil {
 				return err2
